@@ -145,8 +145,14 @@ func C06(r *core.Run) {
 		}
 		for _, pat := range [][]c06Fault{{f, f, f}, {f, fails[(i+3)%len(fails)], {Kind: "ok", At: -1}}, {f, {Kind: "ok", At: -1}}} {
 			id := fmt.Sprintf("s%d-%d", r.Seed, len(cases))
-			cases = append(cases, c06Case{ID: id, BodyLen: []int{10, 3900, 5000}[i%3], Chunks: 1 + i%3, HeaderMs: 250, Attempts: pat})
+			cases = append(cases, c06Case{ID: id, BodyLen: []int{10, 3900, 5000}[i%3], Chunks: 1 + i%3, HeaderMs: 400, Attempts: pat})
 		}
+	}
+	// the proxy is unreachable (connection refused on every attempt): with an immediate and with a slow backend
+	for i, hm := range []int{0, 0, 300, 300, 800} {
+		id := fmt.Sprintf("s%d-%d", r.Seed, len(cases))
+		cases = append(cases, c06Case{ID: id, BodyLen: []int{10, 5000, 10, 3900, 65536}[i], Chunks: 1 + i, HeaderMs: hm,
+			Attempts: []c06Fault{{Kind: "refused", At: -2}, {Kind: "refused", At: -2}, {Kind: "refused", At: -2}}})
 	}
 	if !r.Quick() {
 		// exhaustive pairs of early faults on the sizes around the replay limit
